@@ -41,15 +41,15 @@ type dispHandler struct {
 }
 
 type dispClient struct {
-	c       *girc.Client
-	srv     net.Conn
-	rd      *bufio.Reader
-	clock   int64
-	mu      sync.Mutex
-	invs    []invRec
-	hs      []*dispHandler
-	ret     chan error
-	pongs   chan string
+	c        *girc.Client
+	srv      net.Conn
+	rd       *bufio.Reader
+	clock    int64
+	mu       sync.Mutex
+	invs     []invRec
+	hs       []*dispHandler
+	ret      chan error
+	pongs    chan string
 	recoverN int32
 }
 
@@ -234,7 +234,8 @@ func doneClosed(h *dispHandler, wait time.Duration) bool {
 var dispCmds = []string{"PRIVMSG", "privmsg", "PrivMsg", "NOTICE", "notice", "301", "INVITE", "invite", girc.ALL_EVENTS}
 
 // runDispSeq: one sequential script. in["script"] = comma separated steps:
-//   reg:<kind>:<cmd>:<behave> | rm:<h> | clear:<cmd> | clearall | ev:<cmd>:<echo 0/1> | sleep (40 ms: deadlines pass)
+//
+//	reg:<kind>:<cmd>:<behave> | rm:<h> | clear:<cmd> | clearall | ev:<cmd>:<echo 0/1> | sleep (40 ms: deadlines pass)
 func runDispSeq(c *Ctx, in map[string]string) {
 	hin := hexIn(in)
 	steps := strings.Split(in["script"], ",")
@@ -244,10 +245,10 @@ func runDispSeq(c *Ctx, in map[string]string) {
 		return
 	}
 	defer d.close()
-	var model []string      // the same script for the Lean model
+	var model []string // the same script for the Lean model
 	evCmd := map[int]string{}
 	evEcho := map[int]bool{}
-	loose := map[int]bool{} // events inside a burst: self-removing temporary handlers may or may not still be there
+	loose := map[int]bool{}        // events inside a burst: self-removing temporary handlers may or may not still be there
 	loosePair := map[[2]int]bool{} // (handler, event): a deadline handler whose deadline may have passed around this event
 	regAt := map[int]time.Time{}
 	markDeadline := func(n int, sent time.Time) {
